@@ -23,6 +23,7 @@ RULE = ("families of 2-4 point-compatible masters (integer perturbations of a ra
         "Non-trivial = family has a composite glyph.")
 ASSUMPTIONS = ["cu2qu converts compatible cubics to compatible quadratic splines (its contract)"]
 F7_SIG = "component-mirrored-in-one-master"
+F15_SIG = "closing-point-coincides-in-one-master-otf"
 
 
 def tt_structure(tt, name):
@@ -37,7 +38,20 @@ def tt_structure(tt, name):
     return ("cff", tuple((op, len(args)) for op, args in ops))
 
 
-def compare_masters(ctx, case, fonts, sig=None, sparse=None):
+def users_of(desc, target):
+    """names of the glyphs whose component closure contains target (and target itself)"""
+    by = {g["name"]: g for g in desc["glyphs"]}
+    out = {target}
+    changed = True
+    while changed:
+        changed = False
+        for g in desc["glyphs"]:
+            if g["name"] not in out and any(b in out for b, _ in g["components"]):
+                out.add(g["name"]); changed = True
+    return out
+
+
+def compare_masters(ctx, case, fonts, sig=None, sparse=None, sig_glyphs=None):
     names = None
     ok = True
     base = fonts[0]
@@ -55,7 +69,8 @@ def compare_masters(ctx, case, fonts, sig=None, sparse=None):
                 continue      # empty placeholder for a base that the sparse layer does not hold
             if a != b:
                 ctx.spec_failure(dict(case, glyph=n, master=k, default=repr(a)[:300], other=repr(b)[:300]),
-                                 "glyph %r: master %d is not point-compatible with the default master" % (n, k), signature=sig)
+                                 "glyph %r: master %d is not point-compatible with the default master" % (n, k),
+                                 signature=sig if (sig_glyphs is None or n in sig_glyphs) else None)
                 ok = False
                 break
     return ok
@@ -68,11 +83,24 @@ def explore(ctx):
     for i in range(ctx.budget(36, 240)):
         lib = ["ufoLib2", "defcon"][i % 2]
         n = rng.choice([2, 2, 3, 4])
-        variant = rng.choice(["plain", "plain", "plain", "diff2x2", "mirror-one", "sparse"])
+        variant = ["plain", "diff2x2", "plain", "mirror-one", "sparse", "plain", "closing-point", "plain"][i % 8]
+        if variant == "sparse":
+            n = max(n, 3)
         base = dsgen.base_master(rng)
         masters = [base] + [dsgen.perturb(rng, base, k) for k in range(1, n)]
+        sparse_keep = [g["name"] for g in base["glyphs"][:2]]
+        if variant == "sparse" and rng.random() < 0.6:
+            # a nested composite (top -> mid -> ...) kept in the sparse layer WITHOUT its intermediate composite
+            by0 = {g["name"]: g for g in base["glyphs"]}
+            nested = [g["name"] for g in base["glyphs"] if any(by0[b]["components"] for b, _ in g["components"])]
+            if nested:
+                top = rng.choice(nested)
+                mids = {b for b, _ in by0[top]["components"] if by0[b]["components"]}
+                others = [g["name"] for g in base["glyphs"] if g["name"] != top and g["name"] not in mids]
+                sparse_keep = [top] + (rng.sample(others, 1) if others and rng.random() < 0.5 else [])
         comp_glyphs = [g["name"] for g in base["glyphs"] if g["components"]]
         sig = None
+        sig_glyphs = None
         if variant == "diff2x2" and comp_glyphs:
             gname = rng.choice(comp_glyphs)
             g = next(x for x in masters[-1]["glyphs"] if x["name"] == gname)
@@ -84,11 +112,31 @@ def explore(ctx):
             b, t = g["components"][0]
             g["components"][0] = (b, (-t[0], t[1], -t[2], t[3], t[4], t[5]))
             sig = F7_SIG
+            sig_glyphs = users_of(base, gname)
+        elif variant == "closing-point":
+            # in the last master the last point of an all-line contour coincides with its first point: still the same
+            # number and types of points (known finding F15 on the OTF path)
+            cands = [(g, ci) for g in masters[-1]["glyphs"] for ci, c in enumerate(g["contours"])
+                     if len(c) >= 4 and all(p[2] == "line" for p in c)]
+            if not cands:
+                for k, m in enumerate(masters):
+                    m["glyphs"][0]["contours"].append([(Fr(10), Fr(10), "line"), (Fr(200 + 5 * k), Fr(10), "line"),
+                                                       (Fr(200 + 5 * k), Fr(300), "line"), (Fr(10), Fr(300 + k), "line")])
+                cands = [(masters[-1]["glyphs"][0], len(masters[-1]["glyphs"][0]["contours"]) - 1)]
+            if cands:
+                g, ci = rng.choice(cands)
+                c = g["contours"][ci]
+                g["contours"][ci] = c[:-1] + [(c[0][0], c[0][1], "line")]
+                sig_glyphs = users_of(base, g["name"])
+            else:
+                variant = "plain"
         elif variant in ("diff2x2", "mirror-one"):
             variant = "plain"
         opts = {}
-        fn = ["compileInterpolatableTTFs", "compileInterpolatableTTFsFromDS", "compileInterpolatableOTFsFromDS"][i % 3]
-        if rng.random() < 0.3 and "TTF" in fn:
+        fn = ["compileInterpolatableTTFs", "compileInterpolatableTTFsFromDS", "compileInterpolatableOTFsFromDS"][(i % 8 + i // 8) % 3]
+        if variant == "closing-point" and "OTF" in fn:
+            sig = F15_SIG
+        if rng.random() < (0.6 if variant == "sparse" else 0.3) and "TTF" in fn:
             opts["flattenComponents"] = True
         if rng.random() < 0.25:
             opts["skipExportGlyphs"] = [base["glyphs"][-1]["name"]]
@@ -101,7 +149,7 @@ def explore(ctx):
             src = ds.sources[1]
             f0 = fonts[0]
             layer = f0.newLayer("sparse")
-            keep = [g["name"] for g in masters[1]["glyphs"][:2]]
+            keep = list(sparse_keep)
             for nm in keep:
                 gl = layer.newGlyph(nm)
                 fonts[1][nm].drawPoints(gl.getPointPen())
@@ -130,12 +178,12 @@ def explore(ctx):
             ctx.spec_failure(case, "%s raised %s: %s\n%s" % (fn, type(e).__name__, e, traceback.format_exc()[-1000:]))
             continue
         is_sparse = variant == "sparse" and n >= 3 and fn != "compileInterpolatableTTFs"
-        compare_masters(ctx, case, out, sig=sig,
-                        sparse=(1, [g["name"] for g in masters[1]["glyphs"][:2]]) if is_sparse else None)
+        compare_masters(ctx, case, out, sig=sig, sig_glyphs=sig_glyphs,
+                        sparse=(1, list(sparse_keep)) if is_sparse else None)
         if is_sparse:
             sparse_font = out[1]
             order = sparse_font.getGlyphOrder()
-            keep = [g["name"] for g in masters[1]["glyphs"][:2]]
+            keep = list(sparse_keep)
             by = {g["name"]: g for g in base["glyphs"]}
 
             def reach(nm, acc):
